@@ -78,6 +78,19 @@ func checkC01Denote(c *Ctx, n int) {
 		g := &gen{r: r, p: p}
 		cs := g.genCase()
 		cs.Env = nil
+		nilCmd := ""
+		if g.chance(0.06) && cs.Build[0].Struct != nil {
+			// a command declared through a nil pointer field (D20)
+			for fi := range cs.Build[0].Struct.Fields {
+				f := &cs.Build[0].Struct.Fields[fi]
+				if f.Kind == "p" && strings.Contains(f.Tag, `command:"`) {
+					f.PtrNil = true
+					clearInits(f.Sub)
+					nilCmd = f.Name
+					break
+				}
+			}
+		}
 		real, _ := BuildReal(cs)
 		if real.dead {
 			continue
@@ -214,6 +227,11 @@ func checkC01Denote(c *Ctx, n int) {
 				return
 			}
 			c.Class("c01/denote: judged")
+			if nilCmd != "" {
+				c.Class("c01/denote: a command declared through a nil pointer field")
+			}
+			// the caller's struct after the parse (following the pointers that are set now)
+			cr.Real.register()
 			// the options of the parser that ran this case, by field name
 			byField := map[string]*flags.Option{}
 			for _, cmd := range cr.Real.commandsPreorder() {
@@ -237,9 +255,22 @@ func checkC01Denote(c *Ctx, n int) {
 					continue
 				}
 				want := denoteExpected(d.code, d.occ)
-				got := o.Value()
-				ok := reflect.DeepEqual(got, want)
 				in := map[string]interface{}{"case": cs.Description, "argv": argv, "option": o.String(), "field": fn, "type": d.code, "occurrences": d.occ}
+				// the value is read from the caller's struct, not through the parser
+				fr, reachable := cr.Real.fields[fn]
+				if !reachable || !fr.val.IsValid() {
+					in["case_file"] = c.saveCase(cr)
+					key := "C01:field-unreachable"
+					if nilCmd != "" {
+						key = "C01:nil-command-pointer-not-stored-back"
+						in["nil_command_field"] = nilCmd
+					}
+					c.Check("field-holds-what-the-command-line-denotes", false, key, in,
+						fmt.Sprintf("the field is not reachable from the caller's struct (the parser itself reports %#v)", o.Value()), fmt.Sprintf("%#v", want))
+					continue
+				}
+				got := fr.val.Interface()
+				ok := reflect.DeepEqual(got, want)
 				if !ok {
 					in["case_file"] = c.saveCase(cr)
 				}
